@@ -237,6 +237,7 @@ def evaluate(c):
     src, loads = variants[0]
     cs = dict(case, sources=[dict(pulse=src, v=[1.0, 0.0])], loads=[])
     for name, env in (('1', dict(media=[[13., 5e-3, 0.]])), ('2lin', dict(media=[[13., 5e-3, 0., 7.5], [4., 1e-3, -2.]], boundary='linear')),
+                      ('2lin0', dict(media=[[13., 5e-3, 0., 0.], [4., 1e-3, -2.]], boundary='linear')),
                       ('3circ', dict(media=[[13., 5e-3, 0., 5.25], [80., 4., -1.5, 20.5], [3., 1e-4, -10.]], boundary='circular')),
                       ('rad', dict(media=[[13., 5e-3, 0., 8.5], [4., 1e-3, -2.]], boundary='circular', radials=[16, 1e-3]))):
         ma, ga = pattern(cs, env)
@@ -279,7 +280,7 @@ def evaluate(c):
     env0 = dict(media=[[13., 5e-3, 0., mid_l], [4., 1e-3, -2.]], boundary='linear')
     _, g0 = pattern(cs, env0)
     ev += 1
-    for d in (-(hi_l + 3.0), -2 * mid_l, 25.0):
+    for d in (-(hi_l + 3.0), -2 * mid_l, -mid_l, 25.0):       # -mid_l puts the boundary at exactly x = 0
         sh = dict(cs, wires=[dict(w, p1=[w['p1'][0] + d, w['p1'][1], w['p1'][2]], p2=[w['p2'][0] + d, w['p2'][1], w['p2'][2]]) for w in cs['wires']])
         _, g1 = pattern(sh, dict(media=[[13., 5e-3, 0., mid_l + d], [4., 1e-3, -2.]], boundary='linear'))
         ev += 1
